@@ -486,6 +486,14 @@ def run(ctx):
         ctx.saw(sb)
         ct = [c for c in sb.calls if c.name == "contains"]
         r.check(len(ct) == 1 and describe_operand(sb, ct[0].args[1]) == str(SYNC), "set_needs_sync/tests-SYNC", where(sb), "NEEDS_SYNC is set iff the consumer asked for SYNC")
+        # several consumers may attach during one pending write: the flag accumulates their requests, so this function may only ever add it
+        # (`self.set(NEEDS_SYNC, wants_sync)` removes it again when a later consumer does not ask for SYNC)
+        muts = [c for c in sb.calls if (c.self_adt or "").endswith("downlink::WriteTaskState") and c.name not in ("contains", "bits", "is_empty", "intersects", "clone")]
+        adds = [c for c in muts if c.name in ("bitor_assign", "insert") or (c.name == "set" and len(c.args) > 2 and describe_operand(sb, c.args[2]) == "True")]
+        whole = [i for i, j, p, rv, line in sb.assigns() if p[1] and describe_place(sb, p).startswith("(*self") or (p[1] == ["*"] and p[0] == 1)]
+        r.check(len(adds) >= 1 and len(adds) == len(muts) and not whole and all(any(d.startswith("contains(") and l == "true" for d, l, _ in dom_guards(sb, c.block)) or c.name == "set" for c in adds),
+                "set_needs_sync/only-adds-the-flag", where(sb), "set_needs_sync only ever adds NEEDS_SYNC, on the SYNC-requested edge (%s)" % ", ".join(c.name for c in adds),
+                "set_needs_sync can take NEEDS_SYNC away again (%s): a consumer that attaches without SYNC during a pending write cancels the sync an earlier consumer is waiting for - it gets linked and never synced" % [(c.name, [describe_operand(sb, a)[:30] for a in c.args[1:]]) for c in muts if c not in adds])
 
     with ctx.rule("C07.R6", "T8", "channel ends of a downlink are not Clone (one writer per direction)", floor=3) as r:
         for adt in ("downlink::RequestSender", "downlink::OwningFlush", "downlink::DownlinkSender"):
